@@ -252,7 +252,7 @@ class Connection(protocol.Protocol, policies.TimeoutMixin):
         self.transport.write(encrypted)
 
     def recordReceived(self, record):
-        if self._consumer:
+        if self._consumer is not None:
             self._writeToConsumer(record)
             return
         self._inbound_records.append(record)
@@ -357,7 +357,7 @@ class Connection(protocol.Protocol, policies.TimeoutMixin):
         If 'expected' is None, then this function returns None instead of a
         Deferred, and you must call disconnectConsumer() when you are done."""
 
-        if self._consumer:
+        if self._consumer is not None:
             raise RuntimeError(
                 f"A consumer is already attached: {self._consumer!r}")
 
@@ -384,7 +384,7 @@ class Connection(protocol.Protocol, policies.TimeoutMixin):
             # write empty record to kick consumer into shutdown
             self._writeToConsumer(b"")
         # drain any pending records
-        while self._consumer and self._inbound_records:
+        while self._consumer is not None and self._inbound_records:
             r = self._inbound_records.popleft()
             self._writeToConsumer(r)
         if self._gone and d is not None and not d.called:
